@@ -133,6 +133,12 @@ func windows(thorough bool) []Win {
 		if w.E-w.S == 300e9 {
 			tags["lookback_5m"] = true
 		}
+		if w.E%1e9 != 0 && utcDay(floorTo(w.E, 1e9)-1) != utcDay(w.E) {
+			tags["end_truncates_to_utc_midnight"] = true
+		}
+		if w.E%day == 0 {
+			tags["end_exactly_utc_midnight"] = true
+		}
 		for t := range tags {
 			w.Tags = append(w.Tags, t)
 		}
@@ -149,6 +155,23 @@ func windows(thorough bool) []Win {
 		for _, i := range []int{2, 3, 5, 8} {
 			add("lb"+pts[i].Name, pts[i].T.Add(-300*time.Second), pts[i].T, nil)
 		}
+		// the midnight cluster: instants right at the UTC midnight, where a bound that is truncated to whole seconds
+		// or moved by 1 ns changes the UTC day: all pairs of {M-2s, M-1s, M-1ns, M, M+100ms, M+400ms, M+1s}, each
+		// cluster instant as the start of a window ending 10 min / 15 h later, and two look-back windows ending there
+		cl := []point{pts[0],
+			{a.p + "N1", a.d1.Add(-time.Second), nil}, {a.p + "N2", a.d1.Add(-time.Nanosecond), nil}, {a.p + "N3", a.d1, nil},
+			{a.p + "N4", a.d1.Add(100 * time.Millisecond), nil}, {a.p + "N5", a.d1.Add(400 * time.Millisecond), nil}, {a.p + "N6", a.d1.Add(time.Second), nil}}
+		for i := 0; i < len(cl); i++ {
+			for j := i + 1; j < len(cl); j++ {
+				add(cl[i].Name+cl[j].Name, cl[i].T, cl[j].T, []string{"midnight_cluster"})
+			}
+		}
+		for _, c := range cl[1:] {
+			add(c.Name+pts[3].Name, c.T, pts[3].T, []string{"midnight_cluster"})
+			add(c.Name+pts[8].Name, c.T, pts[8].T, []string{"midnight_cluster"})
+		}
+		add("lb"+cl[3].Name, cl[3].T.Add(-300*time.Second), cl[3].T, []string{"midnight_cluster"})
+		add("lb"+cl[5].Name, cl[5].T.Add(-300*time.Second), cl[5].T, []string{"midnight_cluster"})
 	}
 	return out
 }
@@ -199,6 +222,9 @@ type Item struct {
 	Ts     int64
 	Type   int    // typeBoth/typeLog/typeMetric; -1 for traces and profiles
 	Marker string // unique token present in every string field of the item's rows
+	// Extra != 0: the series has a second, older sample at Extra (one day before the window) and an index row for
+	// that day as well — a series that exists on both sides of the window's days ("both2d").
+	Extra int64
 }
 
 func marker(fam, cls, typ string) string { return "z" + fam + "_" + cls + "_" + typ + "_qz" }
@@ -206,9 +232,21 @@ func marker(fam, cls, typ string) string { return "z" + fam + "_" + cls + "_" + 
 // sampleItems: classes x {log, metric, both}.
 func sampleItems(classes []class) []Item {
 	var out []Item
-	for _, c := range classes {
+	var in, b1d *class
+	for k, c := range classes {
 		for _, t := range []int{typeLog, typeMetric, typeBoth} {
 			out = append(out, Item{Idx: len(out), Class: c.Name, Ts: c.Ts, Type: t, Marker: marker("q", c.Name, typeLetters[t])})
+		}
+		switch c.Name {
+		case "in":
+			in = &classes[k]
+		case "b1d":
+			b1d = &classes[k]
+		}
+	}
+	if in != nil && b1d != nil {
+		for _, t := range []int{typeLog, typeMetric, typeBoth} {
+			out = append(out, Item{Idx: len(out), Class: "both2d", Ts: in.Ts, Extra: b1d.Ts, Type: t, Marker: marker("q", "both2d", typeLetters[t])})
 		}
 	}
 	return out
